@@ -118,6 +118,8 @@ namespace OpenMEEG {
             return N;
         for (const auto& triangle : vtit->second)
             N += triangle->normal();
+        if (!(N.norm()>0.0)) // Null or undefined (zero-area triangle) sum: no normal.
+            return Normal(0);
         N.normalize();
         return N;
     }
